@@ -1566,3 +1566,88 @@ Proof.
   unfold spec_target in E. rewrite Hm in E, H.
   exists ps. split; auto. intros name. unfold route_param_of, params_get. rewrite H. reflexivity.
 Qed.
+
+(** * 8. facts that hold for ANY trie (also one that keeps the nodes of a rejected registration) *)
+
+Lemma walk_trie_items : forall segs nd v v', v_items v = v_items v' ->
+  match walk_trie push_append nd segs v, walk_trie push_append nd segs v' with
+  | Some (n1, w1), Some (n2, w2) => n1 = n2 /\ v_items w1 = v_items w2
+  | _, _ => False
+  end.
+Proof.
+  induction segs as [|s rest IH]; intros nd v v' H; cbn [walk_trie].
+  - auto.
+  - unfold find_frag. destruct (is_nil s && negb (is_nil rest)); [apply IH; auto|].
+    destruct (next_get nd s); [apply IH; auto|].
+    destruct (next_get nd route_param).
+    + unfold push_append. apply IH. cbn [v_items]. rewrite H. auto.
+    + destruct (next_get nd route_param_any).
+      * unfold push_append. cbn [v_items]. rewrite H. auto.
+      * auto.
+Qed.
+
+(** findRoute never panics, whatever the trie *)
+Theorem find_route_total : forall root path method ps, find_route root path method ps <> None.
+Proof.
+  intros root path method ps. unfold find_route, find_route_gen.
+  set (path' := if is_nil path then [47%N] else path).
+  assert (Hne : path' <> []) by (subst path'; destruct path; discriminate).
+  destruct (if length path' =? 1 then method_node_or_nil root method else None); [discriminate|].
+  rewrite find_loop_segs by auto.
+  pose proof (walk_trie_items (segments path') root (pV ps) (pV ps) eq_refl) as H.
+  destruct (walk_trie push_append root (segments path') (pV ps)) as [[[nd|] v]|]; [| discriminate | contradiction].
+  destruct (method_node_or_nil nd method); discriminate.
+Qed.
+
+(** what findRoute returns depends on the Params it is given only through K and the CONTENTS of V, not V's capacity *)
+Theorem find_route_cap_irrelevant : forall root path method ps ps',
+  pK ps = pK ps' -> v_items (pV ps) = v_items (pV ps') ->
+  match find_route root path method ps, find_route root path method ps' with
+  | Some (i1, q1), Some (i2, q2) => i1 = i2 /\ pK q1 = pK q2 /\ v_items (pV q1) = v_items (pV q2)
+  | _, _ => False
+  end.
+Proof.
+  intros root path method ps ps' HK HV. unfold find_route, find_route_gen.
+  set (path' := if is_nil path then [47%N] else path).
+  assert (Hne : path' <> []) by (subst path'; destruct path; discriminate).
+  destruct (if length path' =? 1 then method_node_or_nil root method else None); [cbn; auto|].
+  rewrite !find_loop_segs by auto.
+  pose proof (walk_trie_items (segments path') root (pV ps) (pV ps') HV) as H.
+  destruct (walk_trie push_append root (segments path') (pV ps)) as [[n1 w1]|];
+    destruct (walk_trie push_append root (segments path') (pV ps')) as [[n2 w2]|]; try contradiction.
+  destruct H as [-> Hw]. destruct n2 as [nd|]; [|cbn; auto].
+  destruct (method_node_or_nil nd method); cbn; auto.
+Qed.
+
+Lemma route_param_of_ext : forall a b name, pK a = pK b -> v_items (pV a) = v_items (pV b) ->
+  route_param_of a name = route_param_of b name.
+Proof. intros a b name H1 H2. unfold route_param_of, params_get. rewrite H1, H2. reflexivity. Qed.
+
+(** registration attempts *)
+Lemma attempts_from_snoc : forall rs t p m,
+  attempts_from t (rs ++ [(p, m)]) = handle_attempt (attempts_from t rs) p m.
+Proof. induction rs as [|[p' m'] rs IH]; intros; cbn [app attempts_from]; auto. Qed.
+
+Lemma register_attempts_snoc : forall rs p m,
+  register_attempts (rs ++ [(p, m)]) = handle_attempt (register_attempts rs) p m.
+Proof. intros. apply attempts_from_snoc. Qed.
+
+Lemma handle_attempt_accepted : forall t p m t', handle t p m = Some t' -> handle_attempt t p m = t'.
+Proof.
+  intros t p m t' H. unfold handle, handle_attempt in *.
+  destruct (parse_route (t_root t) p m (t_count t)) as [root' [cnt|e]]; [inversion H; auto | discriminate].
+Qed.
+
+(** when every attempt is accepted the two notions of "the table after these registrations" coincide *)
+Lemma register_attempts_all : forall rs t, register_all rs = Some t -> register_attempts rs = t.
+Proof.
+  unfold register_all, register_attempts. intros rs t. generalize empty_table. revert t.
+  induction rs as [|[p m] rs IH]; intros t t0 H; cbn [register_from attempts_from] in *.
+  - inversion H; auto.
+  - destruct (handle t0 p m) as [t1|] eqn:E; [|discriminate].
+    rewrite (handle_attempt_accepted _ _ _ _ E). apply IH. auto.
+Qed.
+
+(** without ghosts the extended specification is the specification *)
+Lemma match_spec_g_nil : forall routes segs method, match_spec_g routes [] segs method = match_spec routes segs method.
+Proof. intros. unfold match_spec_g, match_cands, match_spec. cbn [map]. rewrite app_nil_r. reflexivity. Qed.
